@@ -33,6 +33,7 @@ fn main() {
         ("repro", "run") => repro::run(&args[2..]),
         ("ndl", "replay") => ndl::replay(&args[2..]),
         ("ndl", "grammar") => ndl::grammar(&args[2..]),
+        ("ndl", "raw") => ndl::raw(&args[2..]),
         ("tree", "replay") => tree::replay(&args[2..]),
         ("tree", "paths") => tree::paths(&args[2..]),
         ("net", "replay") => net::replay(&args[2..]),
